@@ -9,6 +9,7 @@ TITLE = "trust-anchor policies bind the calendar root to the anchor"
 def run(prog, chk):
     extended_chain_table(prog, chk)
     raw_signature_table(prog, chk)
+    certificate_time_table(prog, chk)
     chk.explanation = (
         "R5/R7 over CALENDAR_BASED, KEY_BASED, PUBLICATIONS_FILE_BASED, USER_PUBLICATION_BASED and GENERAL: every evaluation path "
         "ending OK satisfies the internal certificate AND the anchor certificate of the policy (written from the statement: "
@@ -118,3 +119,70 @@ def raw_signature_table(prog, chk):
             ok = q.ret not in (0, TOP)
             what = "expected an error; source: status %s (%s)" % (hex(q.ret) if isinstance(q.ret, int) else q.ret, seen.get("final"))
         chk.ob("C04.rawsig", inst, ok, what, loc=fn.loc(), fn=fn, nontrivial=not all_ok)
+
+
+def certificate_time_table(prog, chk):
+    """KEY-03 compares the aggregation time with the certificate's validity period, which reaches it through ASN1_GetTimeT ->
+    KSI_CalendarTimeToUnixTime (the library's own calendar arithmetic).  Both are evaluated on boundary dates - epoch, leap days of
+    2000 / 2024, the non-leap 2100, month ends, the two-digit-year pivot of UTCTime, GeneralizedTime - and compared with a reference
+    (proleptic Gregorian, UTC); impossible dates are refused (-1)."""
+    import calendar
+    from ksirules.bufinterp import BufInterp
+    from ksirules.interp import TOP, Interp, Ptr, inline_model, succeed_model
+    from ksirules.model import AnalysisBroken
+    chk.rule("C04.certtime", "certificate validity times: calendar arithmetic equals the reference on boundary dates; impossible dates refused (value table)", floor=20)
+    fn = prog.fn("KSI_CalendarTimeToUnixTime", "compatibility.c")
+    tp = fn.params[0]["n"]
+    dates = [(1970, 1, 1, 0, 0, 0), (1970, 12, 31, 23, 59, 59), (1972, 2, 29, 12, 0, 0), (1999, 12, 31, 23, 59, 59), (2000, 2, 29, 0, 0, 0), (2000, 3, 1, 0, 0, 0),
+             (2014, 4, 30, 1, 2, 3), (2024, 2, 29, 23, 59, 59), (2024, 12, 31, 0, 0, 0), (2038, 1, 19, 3, 14, 8), (2100, 2, 28, 23, 59, 59), (2100, 3, 1, 0, 0, 0),
+             (2400, 2, 29, 0, 0, 0), (2999, 12, 31, 23, 59, 59),
+             # impossible
+             (2023, 2, 29, 0, 0, 0), (2100, 2, 29, 0, 0, 0), (2024, 4, 31, 0, 0, 0), (2024, 13, 1, 0, 0, 0), (2024, 0, 1, 0, 0, 0), (2024, 1, 0, 0, 0, 0), (2024, 1, 1, 24, 0, 0),
+             (2024, 1, 1, 0, 60, 0), (2024, 1, 1, 0, 0, 60), (1969, 12, 31, 23, 59, 59), (3000, 1, 1, 0, 0, 0)]
+
+    def valid(y, mo, d, h, mi, s):
+        if not (1970 <= y < 3000 and 1 <= mo <= 12 and 0 <= h <= 23 and 0 <= mi <= 59 and 0 <= s <= 59):
+            return False
+        return 1 <= d <= calendar.monthrange(y, mo)[1]
+    for (y, mo, d, h, mi, s) in dates:
+        inputs = {tp: Ptr("TM"), "TM->tm_year": y - 1900, "TM->tm_mon": mo - 1, "TM->tm_mday": d, "TM->tm_hour": h, "TM->tm_min": mi, "TM->tm_sec": s}
+        I = Interp(fn, inputs=inputs, call_model=inline_model(prog, {"is_leap_year", "days_in_month"}, fallback=succeed_model(prog, {})), on_unknown="stop", prog=prog, loop_bound=1200)
+        paths = I.run()
+        chk.paths += len(paths)
+        inst = "calendar time[%04d-%02d-%02d %02d:%02d:%02d]" % (y, mo, d, h, mi, s)
+        if len(paths) != 1 or paths[0].undetermined or not isinstance(paths[0].ret, int):
+            raise AnalysisBroken("KSI_CalendarTimeToUnixTime: evaluation not determined for %s: %s" % (inst, [(q.ret, q.undetermined[:1]) for q in paths]))
+        got = paths[0].ret
+        want = calendar.timegm((y, mo, d, h, mi, s, 0, 0, 0)) if valid(y, mo, d, h, mi, s) else -1
+        chk.ob("C04.certtime", inst, got == want, "expected %s, source gives %s" % (want, got), loc=fn.loc(), fn=fn)
+    # ASN.1 strings
+    fa = prog.fn("ASN1_GetTimeT", "pkitruststore_openssl.c")
+    ap = fa.params[0]["n"]
+    UTC, GEN = 23, 24          # V_ASN1_UTCTIME, V_ASN1_GENERALIZEDTIME
+    for typ, text, want in ((UTC, "700101000000Z", 0), (UTC, "140430010203Z", calendar.timegm((2014, 4, 30, 1, 2, 3))), (UTC, "491231235959Z", calendar.timegm((2049, 12, 31, 23, 59, 59))),
+                            (UTC, "691231235959Z", calendar.timegm((2069, 12, 31, 23, 59, 59))), (GEN, "20240229235959Z", calendar.timegm((2024, 2, 29, 23, 59, 59))),
+                            (GEN, "21000301000000Z", calendar.timegm((2100, 3, 1, 0, 0, 0))), (GEN, "19700101000000Z", 0)):
+        inputs = {ap: Ptr("T"), "T->type": typ, "T->data": Ptr("S"), "T->length": len(text)}
+        for k, c in enumerate(text.encode() + b"\\0"):
+            inputs["S[%d]" % k] = c
+        seen = {}
+
+        def conv(I, p, node, args):
+            w = getattr(args[0], "what", None)
+            key = w[len("addr:"):] if isinstance(w, str) and w.startswith("addr:") else None
+            vals = {f: I.read(p, "%s.%s" % (key or "t", f)) for f in ("tm_year", "tm_mon", "tm_mday", "tm_hour", "tm_min", "tm_sec")}
+            seen.update(vals)
+            if not all(isinstance(v, int) for v in vals.values()):
+                return TOP
+            y, mo = vals["tm_year"] + 1900, vals["tm_mon"] + 1
+            if not valid(y, mo, vals["tm_mday"], vals["tm_hour"], vals["tm_min"], vals["tm_sec"]):
+                return -1
+            return calendar.timegm((y, mo, vals["tm_mday"], vals["tm_hour"], vals["tm_min"], vals["tm_sec"], 0, 0, 0))
+        ov = {"KSI_CalendarTimeToUnixTime": conv, "memset": lambda I, p, n, a: a[0]}
+        I = BufInterp(fa, {"S": len(text) + 1}, inputs=inputs, call_model=succeed_model(prog, ov), on_unknown="stop", prog=prog)
+        paths = I.run()
+        chk.paths += len(paths)
+        inst = "ASN.1 time[%s %s]" % ("UTCTime" if typ == UTC else "GeneralizedTime", text)
+        if len(paths) != 1 or paths[0].undetermined or not isinstance(paths[0].ret, int):
+            raise AnalysisBroken("ASN1_GetTimeT: evaluation not determined for %s: %s %s" % (inst, [(q.ret, q.undetermined[:1]) for q in paths], seen))
+        chk.ob("C04.certtime", inst, paths[0].ret == want, "expected %s, source gives %s (fields %s)" % (want, paths[0].ret, seen), loc=fa.loc(), fn=fa)
